@@ -108,6 +108,34 @@ def doc_lines(node):
     return skip
 
 
+def in_text(line, pos):
+    """True where a mutation cannot matter: inside the message of a sert / vert / tert /
+    yert call, or inside a `# ... #` comment of tapescript source held in a string."""
+    st = line.lstrip()
+    m = re.match(r'(sert|vert|tert|yert)\(', st)
+    if m:
+        # the message starts at the last top-level `, '` / `, f'` of the line
+        k = max(line.rfind(", '"), line.rfind(', f\''), line.rfind(', "'))
+        if k != -1 and pos > k:
+            return True
+    if st.startswith(("'", '"', "f'", 'f"')):
+        return True         # continuation line of a message
+    for c in re.finditer(r'#[^#]*#', line):
+        if c.start() < pos < c.end():
+            return True
+    # a trailing Python comment (first `#` outside quotes)
+    q = None
+    for k, ch in enumerate(line):
+        if q:
+            if ch == q and line[k - 1] != '\\':
+                q = None
+        elif ch in '\'"':
+            q = ch
+        elif ch == '#':
+            return pos > k
+    return False
+
+
 def generate(only=None):
     muts = []
     cache = {}
@@ -135,6 +163,8 @@ def generate(only=None):
                 seen = set()
                 for pat, reps in SWAPS:
                     for m in re.finditer(pat, code):
+                        if in_text(code, m.start()):
+                            continue
                         for rep in reps:
                             new = code[:m.start()] + rep + code[m.end():]
                             if new != code and new not in seen:
